@@ -178,7 +178,15 @@ func c09ProducersStream(ctx *core.Ctx) {
 			ctx.Violate(core.Violation{Kind: kind, Attrs: attrs, Detail: detail + fmt.Sprintf("\n  sql: %s\n  %d producers x %d rows, input buffer 8 slots growing on demand", c.SQL, np, m), Case: c})
 		}
 		exp := types.ExpansionConfig{GrowthFactor: 1.05, MinIncrement: 8, TriggerThreshold: 0.9, ExpansionTimeout: 5 * time.Second}
-		s, err := eng.New(c.SQL, eng.Opts{Strategy: "expand", DataChan: 8, MaxBuffer: 1 << 20, Expansion: &exp})
+		strat := "expand"
+		if i%3 == 2 {
+			// the default strategy: rows that meet the full buffer are dropped and counted; what is processed
+			// keeps each producer's order
+			strat = "drop"
+			np = 1 + i%2
+			attrs["strategy"], attrs["producers"] = strat, fmt.Sprint(np)
+		}
+		s, err := eng.New(c.SQL, eng.Opts{Strategy: strat, DataChan: 8, MaxBuffer: 1 << 20, Expansion: &exp})
 		if err != nil {
 			viol("counting.execute_error", err.Error())
 			return
